@@ -9,7 +9,7 @@ import tempfile
 
 VERIF = os.path.dirname(os.path.dirname(os.path.abspath(__file__)))
 sys.path.insert(0, VERIF)
-from sa import alpha, core, lispcanon  # noqa: E402
+from sa import alpha, canon, core, lispcanon  # noqa: E402
 from sa.run import analyse  # noqa: E402
 
 root = "/repo"
@@ -21,7 +21,7 @@ for d, _dn, fs in os.walk(os.path.join(root, "src", "basilisp")):
     for f in fs:
         if f.endswith(".py"):
             p = os.path.join(d, f)
-            out, k = alpha.rename_locals(open(p, encoding="utf-8").read())
+            out, k = alpha.rename_locals(open(p, encoding="utf-8").read(), kw_names=canon.package_keyword_names(root))
             n += k
             dst = os.path.join(tmp, os.path.relpath(p, root))
             os.makedirs(os.path.dirname(dst), exist_ok=True)
